@@ -3,6 +3,7 @@ use vstd::prelude::*;
 use vstd::map::Map as SMap;
 use core::cmp::Ordering;
 use std::collections::BTreeMap;
+use core::iter::FromIterator;
 use vstd::std_specs::iter::IteratorSpec;
 use vstd::std_specs::cmp::{PartialEqSpec, PartialOrdSpec, OrdSpec};
 use crate::spec::*;
@@ -203,6 +204,27 @@ impl<T, A: Ord + Clone> List<T, A> {
     }
 //@end
 
+//@extract fn src/list.rs "List" read
+    pub fn read<'a, C: FromIterator<&'a T>>(&'a self) -> /*@ (r: @*/ C /*@ ) @*/
+    //@ ensures
+    //@     // C12/C13 observation: the caller's collector is handed exactly the values, in increasing identifier order
+    //@     vstd::std_specs::btree::key_obeys_cmp_spec::<Id<A>>() && vstd::laws_cmp::obeys_cmp::<Id<A>>() ==> exists|s: Seq<Id<A>>| #[trigger] is_order(s, self.sq()) && r == from_iter_spec::<C, &T>(s.map(|i: int, k: Id<A>| &self.sq()[k])),
+    {
+        /*@ let it0 = @*/ self.seq.values() /*@ ; proof { if vstd::std_specs::btree::key_obeys_cmp_spec::<Id<A>>() && vstd::laws_cmp::obeys_cmp::<Id<A>>() { let m = self.seq@; let ks = choose|ks: Seq<Id<A>>| vstd::std_specs::btree::increasing_seq(ks) && ks.to_set() == m.dom() && ks.no_duplicates() && it0.remaining() == ks.map(|i: int, k: Id<A>| &m[k]); lemma_keys_order_owned(ks, m); assert(is_order(ks, self.sq())); } } let r0 = shim_iter_collect(it0); r0 @*/ /*@<*/ .collect() /*@>*/
+    }
+//@end
+
+//@extract fn src/list.rs "List" read_into
+    pub fn read_into<C: FromIterator<T>>(self) -> /*@ (r: @*/ C /*@ ) @*/
+    //@ ensures
+    //@     // C12/C13 observation: as `read`, handing over the owned values
+    //@     vstd::std_specs::btree::key_obeys_cmp_spec::<Id<A>>() && vstd::laws_cmp::obeys_cmp::<Id<A>>() ==> exists|s: Seq<Id<A>>| #[trigger] is_order(s, self.sq()) && r == from_iter_spec::<C, T>(s.map(|i: int, k: Id<A>| self.sq()[k])),
+    {
+        //@ let ghost m = self.seq@;
+        /*@ let r0 = shim_btreemap_into_values_collect( @*/ self.seq /*@<*/ .into_values().collect() /*@>*/ /*@ ); proof { if vstd::std_specs::btree::key_obeys_cmp_spec::<Id<A>>() && vstd::laws_cmp::obeys_cmp::<Id<A>>() { let ks = choose|ks: Seq<Id<A>>| vstd::std_specs::btree::increasing_seq(ks) && ks.to_set() == m.dom() && ks.no_duplicates() && r0 == from_iter_spec::<C, T>(ks.map(|i: int, k: Id<A>| m[k])); lemma_keys_order_owned(ks, m); assert(is_order(ks, self.sq())); } } r0 @*/
+    }
+//@end
+
 //@extract fn src/list.rs "List" iter
     pub fn iter(&self) -> /*@ (r: @*/ impl Iterator<Item = &T> /*@ ) @*/
     //@ ensures
@@ -221,6 +243,7 @@ impl<T, A: Ord + Clone> List<T, A> {
     pub fn iter_entries(&self) -> /*@ (r: @*/ impl Iterator<Item = (&Identifier<OrdDot<A>>, &T)> /*@ ) @*/
     //@ ensures
     //@     vstd::std_specs::btree::key_obeys_cmp_spec::<Id<A>>() && vstd::laws_cmp::obeys_cmp::<Id<A>>() ==> exists|s: Seq<Id<A>>| #[trigger] is_order(s, self.sq()) && entries_in_order(r.remaining(), s, self.sq()),
+    //@     r.obeys_prophetic_iter_laws(),
     {
         //@ let v =
         self.seq.iter()
@@ -238,6 +261,23 @@ impl<T, A: Ord + Clone> List<T, A> {
     {
         //@ broadcast use vstd::std_specs::iter::group_iter_axioms;
         /*@ let it0 = self.iter(); let r0 = shim_iter_nth(it0, ix); r0 @*/ /*@<*/ self.iter().nth(ix) /*@>*/
+    }
+//@end
+
+//@extract fn src/list.rs "List" position_entry
+    pub fn position_entry(&self, id: &Identifier<OrdDot<A>>) -> /*@ (r: @*/ Option<usize> /*@ ) @*/
+    //@ requires list_ok::<A>(),
+    //@ ensures
+    //@     // C13 observation: the index of `id` in identifier order, None when the list does not hold it
+    //@     exists|s: Seq<Id<A>>| #[trigger] is_order(s, self.sq()) && position_entry_post(s, *id, r),
+    {
+        //@ broadcast use vstd::std_specs::iter::group_iter_axioms;
+        /*@ let it0 = @*/ self.iter_entries()
+            /*@ ; let ghost es = it0.remaining(); let f0 = @*/ /*@<*/ .enumerate()
+            .find_map( /*@>*/ /*@<*/ | /*@>*/ /*@<pat*/ (ix, (ident, _)) /*@>*/ /*@<*/ | /*@>*/ /*@ |p: (usize, (&Identifier<OrdDot<A>>, &T))| -> (o: Option<usize>)
+                requires list_ok::<A>(),
+                ensures o == pe_out(p, *id)
+            { let $pat = p; @*/ if ident == id { Some(ix) } else { None } /*@ } @*/ /*@<*/ ) /*@>*/ /*@ ; let r0 = shim_iter_enumerate_find_map(it0, f0); proof { vstd::std_specs::btree::axiom_spec_btree_map_len(&self.seq); let s = choose|s: Seq<Id<A>>| #[trigger] is_order(s, self.sq()) && entries_in_order(es, s, self.sq()); lemma_order_len(s, self.sq()); let outs = choose|outs: Seq<Option<usize>>| #[trigger] find_map_run(outs, es.len() as int, r0) && (forall|i: int| 0 <= i < outs.len() ==> call_ensures(f0, ((i as usize, es[i]),), #[trigger] outs[i])); let n = outs.len() as int; lemma_position_entry(es, s, self.sq(), *id, r0, outs, n); } r0 @*/
     }
 //@end
 
@@ -427,6 +467,37 @@ pub proof fn lemma_entries_order<A: Ord, T>(es: Seq<(&Id<A>, &T)>, kr: Seq<Id<A>
     assert(is_order(s, m));
     assert forall|i: int| 0 <= i < s.len() implies *(#[trigger] es[i]).0 == s[i] && *es[i].1 == m[s[i]] by { assert(m.contains_key(*es[i].0)); }
     assert(entries_in_order(es, s, m));
+}
+
+/// C13 observation of position_entry: the index of the identifier that compares equal to `id`, None when there is none
+pub open spec fn position_entry_post<A: Ord>(s: Seq<Id<A>>, id: Id<A>, r: Option<usize>) -> bool {
+    match r {
+        Some(i) => i < s.len() && id_cmp(s[i as int]@, id@) == Ordering::Equal,
+        None => forall|j: int| 0 <= j < s.len() ==> id_cmp((#[trigger] s[j])@, id@) != Ordering::Equal,
+    }
+}
+/// what `enumerate().find_map(|(ix, (ident, _))| if ident == id { Some(ix) } else { None })` finds on the entries in order
+pub open spec fn pe_out<A: Ord, T>(p: (usize, (&Id<A>, &T)), id: Id<A>) -> Option<usize> {
+    if id_cmp((*p.1.0)@, id@) == Ordering::Equal { Some(p.0) } else { None::<usize> }
+}
+pub proof fn lemma_position_entry<A: Ord, T>(es: Seq<(&Id<A>, &T)>, s: Seq<Id<A>>, m: SMap<Id<A>, T>, id: Id<A>, r: Option<usize>, outs: Seq<Option<usize>>, n: int)
+    requires
+        entries_in_order(es, s, m), es.len() <= usize::MAX,
+        0 <= n <= es.len(), outs.len() == n,
+        forall|i: int| 0 <= i < n ==> #[trigger] outs[i] == pe_out((i as usize, es[i]), id),
+        forall|i: int| 0 <= i < n - 1 ==> (#[trigger] outs[i]) is None,
+        r is Some ==> n > 0 && outs[n - 1] == r,
+        r is None ==> n == es.len() && (n > 0 ==> outs[n - 1] is None),
+    ensures position_entry_post(s, id, r),
+{
+    if r is Some {
+        assert(outs[n - 1] == pe_out(((n - 1) as usize, es[n - 1]), id));
+    } else {
+        assert forall|j: int| 0 <= j < s.len() implies id_cmp((#[trigger] s[j])@, id@) != Ordering::Equal by {
+            assert(outs[j] is None);
+            assert(outs[j] == pe_out((j as usize, es[j]), id));
+        }
+    }
 }
 
 /// same for a sequence of owned keys (the shape vstd's `values()` specification uses)
